@@ -28,7 +28,7 @@ class C05(Engine):
     name = "read-fault-sim"
     level = "fault_enumeration"
     expected_kinds = {"prefix_tok", "prefix_chr", "tok_del", "tok_rep", "tok_ins", "tok_swap", "edit_pair", "flip",
-                      "non_ascii", "bad_utf8", "lex_exhaustive", "lex_seeded", "lex_long_run", "pipeline_long_run", "pipeline_deep_nest", "cli_level", "prefix_line", "tok_rep_kw", "line_tail_lost"}
+                      "non_ascii", "bad_utf8", "lex_exhaustive", "lex_seeded", "lex_long_run", "pipeline_long_run", "pipeline_deep_nest", "cli_level", "prefix_line", "tok_rep_kw", "tok_rep_macro", "line_tail_lost"}
     rule_text = ("Every workload program (repository samples, generated conforming/violating files, literal families) x both file "
                  "types x every token boundary (prefix_tok) and every single-token deletion (tok_del) is executed, plus the middle of "
                  "every multi-character token (prefix_chr), seeded token replace/insert/swap/pairs, byte flips, non-ASCII and invalid "
@@ -136,6 +136,25 @@ class C05(Engine):
                     if any(spans[j][2] == "HASH" for j in cur):
                         line_has_hash.update(cur)
                     cur = []
+            # every token of a preprocessor line replaced by a macro name defined in this file (macros may stand anywhere)
+            macros = []
+            for k2 in range(n - 2):
+                if spans[k2][2] == "IDENTIFIER" and content[spans[k2][0]:spans[k2][1]] == "define" and k2 in line_has_hash:
+                    for k3 in range(k2 + 1, min(k2 + 4, n)):
+                        if spans[k3][2] == "IDENTIFIER":
+                            macros.append(content[spans[k3][0]:spans[k3][1]])
+                            break
+            macros = sorted(set(macros))[:2]
+            if macros:
+                for k2 in sorted(line_has_hash):
+                    if spans[k2][2] in ("SPACE", "TAB", "NEWLINE", "HASH"):
+                        continue
+                    a, e, _ = spans[k2]
+                    mname = macros[k2 % len(macros)]
+                    if content[a:e] == mname:
+                        continue
+                    yield idx, self.derived(b, names[k2 % 2], [[a, e, mname]], f"tok_rep_macro({k2},{mname})", "tok_rep_macro")
+                    idx += 1
             for k2 in range(n):
                 if spans[k2][2] == "IDENTIFIER" and (k2 in line_has_hash or rng.random() < (0.05 if q else 0.3)):
                     a, e, _ = spans[k2]
